@@ -40,7 +40,7 @@ impl<'a> ZodSchemaBuilder<'a> {
             TypeStructure::Optional(inner) => {
                 format!(
                     "{}.optional()",
-                    self.render_type(inner, validator, false, is_record_key)
+                    self.render_type(inner, validator, skip_validation, is_record_key)
                 )
             }
             TypeStructure::Primitive(prim) => {
